@@ -44,6 +44,14 @@ def targeted_attrs(rec, op):
     return {k for k in op.get("kw", {}) if k in names}
 
 
+def declared_noop(op):
+    """calls the API declares to be no-ops returning the receiver: _if=False, MISSING / UNCHANGED values"""
+    if op.get("kw", {}).get("_if") is False:
+        return True
+    vals = list(op.get("args", [])) + [v for k, v in op.get("kw", {}).items() if not k.startswith("_")]
+    return bool(vals) and all(v in (["MISSING"], ["UNCHANGED"]) for v in vals)
+
+
 class Oracle:
     faults = ()
 
@@ -73,6 +81,9 @@ class Oracle:
         if not self.checked(ctx.op) or out.raised:
             return []
         recv, res = out.receiver, out.result
+        if res is recv and recv is not None and ctx.op["op"] == "call" and not declared_noop(ctx.op):
+            # the "copy" is the receiver itself: every later in-place change to either is visible through the other
+            return [explore.violation(PROP, ctx.sig("returned_receiver_itself"), {"outcome": out.brief()}, ctx.case())]
         if res is None or res is recv or not isinstance(res, type(recv)):
             return []
         v = []
@@ -101,7 +112,9 @@ class Oracle:
                 v.append(explore.violation(PROP, ctx.sig("do_not_copy_attr_duplicated", attr=n),
                                            {"receiver": repr(vars(recv)[n])[:80], "result": repr(vars(res).get(n, '<absent>'))[:80]},
                                            ctx.case()))
-        if not v:
+        handed_in_own_state = any(set(snap.reachable_mutable(a)) & set(snap.reachable_mutable(recv)) for a in out.args)
+        if not v and not handed_in_own_state:
+            # (when the caller hands the receiver's own objects to the call, sharing them is the stated exception)
             v += self.oracle2(ctx, out)
         return v
 
